@@ -70,7 +70,8 @@ def value_round_trip(P, rep, rule):
     alphabet = ["{", "}", '"', "a", "1", " ", "#"]
     L = 4 if rep.tier == "thorough" else 3
     values = ["".join(t) for n in range(0, L + 1) for t in itertools.product(alphabet, repeat=n)]
-    values += ["s1", "{s1}", '"s1"', "s1 # s1", "S1", "1990", "{A {B} c}", '"a {"} b"', "{a} # {b}"]
+    values += ["s1", "{s1}", '"s1"', "s1 # s1", "S1", "1990", "{A {B} c}", '"a {"} b"', "{a} # {b}", "{a\nb}", '"a\nb"', "{{Protected}}", '"{Springer}"',
+               "{a\r\nb c}"]
     bad = {}
     n = 0
     chunk = 60
@@ -266,8 +267,7 @@ def run(P: Program, rep: Report):
                        "reuse, enclose integers)]; the enclosing tags RemoveEnclosing records are exactly those AddEnclosing "
                        "accepts, and adding what was removed restores the value (table agreement, see also C10)")
     enc = P.module("middlewares.enclosing")
-    strip_f = P.func("middlewares.enclosing", "RemoveEnclosingMiddleware._strip_enclosing")
-    encl_f = P.func("middlewares.enclosing", "AddEnclosingMiddleware._enclose")
+    from .common import strip_public, enclose_public
     # tags RemoveEnclosing can record (observed on representatives of every enclosing kind) must be accepted by AddEnclosing
     acls_ = P.cls("middlewares.enclosing", "AddEnclosingMiddleware")
 
@@ -276,10 +276,10 @@ def run(P: Program, rep: Report):
         out = []
         try:
             for v in ("{a}", '"a"', "a", "12", ""):
-                r = call_func(it, strip_f, v)
+                r = strip_public(it, P, v)
                 tag = r[1] if isinstance(r, tuple) and len(r) == 2 else None
                 mw = it.construct(acls_, [], {"reuse_previous_enclosing": True, "enclose_integers": True, "default_enclosing": "{"})
-                back = call(it, mw, "_enclose", r[0] if isinstance(r, tuple) else r, tag, apply_int_rule=False)
+                back = enclose_public(it, P, mw, r[0] if isinstance(r, tuple) else r, tag, False)
                 out.append((v, tag, back))
             return out
         except Raised as r_:
@@ -296,14 +296,15 @@ def run(P: Program, rep: Report):
             it = driver_interp(P, ctx, "middlewares.parsestack")
             try:
                 st = call_func(it, f)
-                return [(x.cls.name, dict(x.attrs)) for x in it.iterate(st) if isinstance(x, AObj)]
+                from .common import enclosing_behaviour
+                return [(x.cls.name, enclosing_behaviour(it, P, x) if x.cls.name == "AddEnclosingMiddleware" else {}) for x in it.iterate(st) if isinstance(x, AObj)]
             except (Raised, Unsupported) as e:
                 return str(e)
         for ctx, v in explore(one, 5):
             ok = isinstance(v, list) and [x[0] for x in v] == want
             if ok and fname == "default_unparse_stack":
                 a = v[0][1]
-                ok = a.get("_default_enclosing") == "{" and a.get("_reuse_previous_enclosing") is False and a.get("_enclose_integers") is True and a.get("_allow_inplace_modification") is False
+                ok = a.get("default") == "{" and a.get("reuse") is False and a.get("ints") is True and a.get("inplace") is False
             rep.check(ok, "C05.R2", f"{fname}", f.loc, f"{fname}() is {v!r}")
 
     rep.rule("C05.R4", "the parse stack hands the writer the value text verbatim: removing the enclosing returns exactly the text "
@@ -335,7 +336,8 @@ def run(P: Program, rep: Report):
         impure = [ast.unparse(c.func) for c in ast.walk(expr) if isinstance(c, ast.Call)
                   and any(ast.unparse(c.func).startswith(p_) for p_ in ("time.", "random.", "datetime.", "os.", "uuid.", "open", "input"))]
         rep.check(not impure, "C05.R3", f"module-constant:{name}", wmod.relpath, f"writer module global {name} is computed from {impure}")
-    rep.require_count("C05.R3", "writer functions scanned", nfun, 20)
+    wfn_ = P.func("writer", "write")           # the anchor: the serialising entry point itself is among the scanned functions
+    rep.require_count("C05.R3", "writer functions scanned (the module of write(), however it is cut into helpers)", nfun if wfn_.module is wmod else 0, 1)
     rep.ok("C05.R3", "writer:pure", wmod.relpath, f"{nfun} functions scanned")
 
     rep.rule("C05.R6", "the round trip re-reads what the writer emitted: the reader must implement the dialect grammar (splitter product, content class, see C02.R2)")
